@@ -173,6 +173,7 @@ def run(env, rep):
         "path, the stage is unchanged so the same function runs next, and no other public method reads it); R2: get_next_message "
         "appends the caller's bytes to the buffer before the first stage runs and nothing else appends to it; R3: in both sessions "
         "the slice passed to get_next_message is the caller's bytes on the first call and provably empty on every later iteration.  "
+        "R4 (= C06 R4 and R2): no stage turns a shortage of bytes into an error - every error path is one of the two refusals that do not depend on how much input has arrived, and the basic-header forms wait for their 1/2/3 bytes.  "
         "Not decided: equality of outputs under two partitions as such.")
     m = chunk.ChunkModel(env, rep, "C15.anchors")
     if not m.ok:
@@ -222,3 +223,8 @@ def run(env, rep):
             rep.check("C15.R3", "%s|single-feed" % which, r[0], r[1], "%s::handle_input: %s" % (which, r[1]), hb.blocks[head]["term"]["span"])
         if not found:
             rep.bad("C15.R3", "%s|single-feed" % which, "no loop around get_next_message found in %s handle_input" % which, hb.span)
+    # ------------------------------------------------------------------ R4: a shortage of bytes is never turned into an error
+    from ..framework import PrefixReport, wants
+    if wants(rep, "C15.R4"):
+        from . import C06
+        C06.run(env, PrefixReport(rep, "C06.", "C15.R4.", only=("C06.R4", "C06.R2")))
